@@ -39,6 +39,28 @@ class Escape:
         return "%s from %s `%s`" % (self.exc, self.func.split(".", 1)[-1], self.what[:60])
 
 
+def _new_assert(fi, st):
+    """the assert statement is absent from the reviewed transcription of its function (spec/mod); a function that has no
+    transcription is judged as reviewed"""
+    try:
+        from . import modref
+        tree = modref._tree(fi.module.name)
+        if tree is None:
+            return False
+        top = fi
+        while getattr(top, "parent", None) is not None:
+            top = top.parent
+        rn = modref.ref_name(fi)
+        ref = next((n for n in tree.body if isinstance(n, ast.FunctionDef) and n.name == rn), None)
+        if ref is None:
+            # a helper added since the review: its assertions are new as well
+            return not modref.is_reviewed(fi)
+        have = {norm(a.test) for a in ast.walk(ref) if isinstance(a, ast.Assert)}
+        return norm(st.test) not in have
+    except Exception:
+        return False
+
+
 class EX:
     def __init__(self, program, bindings=None, extra_resolve=None):
         self.p = program
@@ -257,7 +279,11 @@ class EX:
                 self._expr(fi, st.exc, handlers, out, depth)
             return
         if isinstance(st, ast.Assert):
-            self._add(out, Escape("AssertionError", fi.qualname, "%s:%d" % (fi.module.relpath, st.lineno), norm(st)[:120]), handlers)
+            # an assertion the reviewed function did not have states a belief about values the surrounding code has already
+            # established (and python -O removes it): it is not counted as a way to fail.  Assertions of the reviewed tree are
+            # raisers, each tabulated by the rules with the reason it cannot fire.
+            if not _new_assert(fi, st):
+                self._add(out, Escape("AssertionError", fi.qualname, "%s:%d" % (fi.module.relpath, st.lineno), norm(st)[:120]), handlers)
             self._expr(fi, st.test, handlers, out, depth)
             return
         # fixed-arity unpacking of a split / call result
